@@ -48,7 +48,17 @@ func vRefValidURI(s string, strict bool, match string) bool {
 func vHarnessValidURI(maxLen int) {
 	s := vString("uri", maxLen)
 	strict := vBool("strict")
-	match := []string{"", MatchExact, MatchPrefix, MatchWildcard, "bogus"}[vChoice("match", 5)]
+	matches := []string{"", MatchExact, MatchPrefix, MatchWildcard, "bogus"}
+	mi := vChoice("match", 5)
+	match := matches[mi]
+	// the verdict does not depend on what was checked before (a process
+	// checks the same string for several purposes, under either rule)
+	switch vChoice("earlier-check-of-the-same-string", 3) {
+	case 1:
+		URI(s).ValidURI(!strict, match)
+	case 2:
+		URI(s).ValidURI(strict, matches[(mi+1)%5])
+	}
 	got := URI(s).ValidURI(strict, match)
 	want := vRefValidURI(s, strict, match)
 	vAssert("validuri-matches-reference", got == want)
